@@ -41,9 +41,9 @@ def elemView (e : Encoding) (V : List Cat) (clef : Option Clef) (durInForce : Op
   let pd := joinSep sepT pdTexts
   let content := if decs.isEmpty then pd else pd ++ sepD ++ joinSep sepD decs
   -- the basic encodings cut at the first decoration separator, so nothing of the decorations is left;
-  -- an element with nothing left prints the null token `*` (bekern/bkern: the empty string, which the exporter
-  -- then replaces by its placeholder `.`)
-  pure (if content.isEmpty then (if isBasic e && V.contains .DECORATION && !(sortedSet sigs).isEmpty then ['.'] else ['*']) else content)
+  -- an element with nothing left prints the null token `*`; in bekern/bkern an element of which only decorations
+  -- were selected prints the empty string (a corner the property leaves open: the oracle follows the code)
+  pure (if content.isEmpty then (if isBasic e && V.contains .DECORATION && !(sortedSet sigs).isEmpty then [] else ['*']) else content)
 
 /-- placeholder of a non-note cell whose category is not selected -/
 def placeholderOf (c : Cat) : Str := if isDescOrSelf .SIGNATURES c then ['*'] else ['.']
@@ -52,7 +52,10 @@ def otherCat (k : OtherKind) : Cat := (otherClass k).2
 
 /-- the cell under (encoding, categories, clef in force); `none` = nothing is known about this cell kind -/
 def cellView (e : Encoding) (V : List Cat) (clef : Option Clef) : ACell → Except Err Str
-  | .elem el => elemView e V clef (elemDur el) (keptSigs el) el
+  | .elem el => do
+    -- a cell that exports to the empty string gets the exporter's placeholder (inside a chord the empty note text stays)
+    let s ← elemView e V clef (elemDur el) (keptSigs el) el
+    pure (if s.isEmpty then ['.'] else s)
   | .chord es =>
     if !V.contains .CHORD then pure ['.']
     else do
